@@ -18,11 +18,14 @@ Divs(n) == {d \in 1 .. n : n % d = 0 /\ d <= 4}
 Geometries == {<<g1, g2, g3, s1, s2, s3>> \in Cells \X Cells \X Cells \X (1 .. 4) \X (1 .. 4) \X (1 .. 4) :
                   /\ s1 \in Divs(g1) /\ s2 \in Divs(g2) /\ s3 \in Divs(g3)
                   /\ g1 * g2 * g3 <= 900 /\ s1 * s2 * s3 <= 16}
+\* subgrids with more than 10 000 cells (the writer moves the data in blocks of 10 000 cells)
+Big == {<<24, 24, 24, 1, 1, 1>>, <<22, 24, 20, 1, 1, 1>>, <<48, 24, 24, 2, 1, 1>>, <<24, 22, 42, 1, 1, 2>>}
 Bound == 1
 
 Results == IF "RESULTS" \in DOMAIN IOEnv THEN ndJsonDeserialize(IOEnv.RESULTS) ELSE <<>>
 BadCase(r) == r.dev_n > Bound \/ r.dev_T > Bound \/ r.dev_x > Bound
 ASSUME PrintT(<<"GEOMETRIES", ToJson(Geometries)>>)
+ASSUME PrintT(<<"BIG", ToJson(Big)>>)
 ASSUME PrintT(<<"BADSNAPS", ToJson([i \in 1 .. Len(Results) |-> IF BadCase(Results[i]) THEN 1 ELSE 0])>>)
 VARIABLE x
 Init == x = 0
